@@ -16,7 +16,7 @@ Transcribes `Include/Digit.hpp` (the tree with the four C09 repairs applied:
 | `tailLoop`            | 448-487 (`keep_going` loop: ignored digits, a late dot, the exponent)         |
 | `posLoop`,`posScale`,`posFinish`,`powerOfPositiveTen` | 629-672                                       |
 | `negLoop`,`negScale`,`negFinish`,`powerOfNegativeTen` | 543-626 (the 8-byte branch)                   |
-| `finishReal`          | 428-535                                                                       |
+| `adjustExponent`,`realResult`,`finishReal` | 428-535                                                  |
 | `strToNum`            | `stringToNumber` 219-540                                                      |
 
 Conventions.
@@ -317,6 +317,34 @@ def powerOfNegativeTen (num exponent : Nat) : Option Nat :=
 
 /-! ### The real-number tail 428-535 -/
 
+/-- 489-517: fold the digits ignored after the window and the scanned fraction digits into the
+exponent → `(exponent, is_negative_exp)`; `off`/`dotOff` are the values before the tail loop. -/
+def adjustExponent (fractionOnly : Bool) (off dotOff en10 : Nat) (t : Tail) : Nat × Bool :=
+  let xn1 : Nat × Bool :=
+    if !fractionOnly ∧ off ≠ t.off then
+      let extra :=
+        if !t.hasDot then (if t.expOff = 0 then sub32 t.off off else sub32 t.expOff off)
+        else if t.dotOff ≠ dotOff then sub32 t.dotOff off else 0
+      if !t.negExp then (add32 t.exponent extra, false)
+      else if t.exponent ≤ extra then (sub32 extra t.exponent, false)
+      else (sub32 t.exponent extra, true)
+    else (t.exponent, t.negExp)
+  if xn1.2 then (add32 xn1.1 en10, true)
+  else if xn1.1 ≥ en10 then (sub32 xn1.1 en10, false)
+  else (sub32 en10 xn1.1, true)
+
+/-- 519-535 (repaired: the range test and the scaling only for a non-zero mantissa) -/
+def realResult (neg : Bool) (num ep10 x : Nat) (negExp : Bool) (off : Nat) : Option Res :=
+  let sign := if neg then 0x8000000000000000 else 0
+  if num ≠ 0 then
+    if (negExp ∧ x > ep10 ∧ sub32 x ep10 > 324) ∨ (!negExp ∧ add32 x ep10 > 309) then
+      some ⟨.notANumber, num, off⟩
+    else
+      match (if negExp then powerOfNegativeTen num x else powerOfPositiveTen num x) with
+      | none => none
+      | some v => some ⟨.real, v ||| sign, off⟩
+  else some ⟨.real, num ||| sign, off⟩
+
 def finishReal (c : List Nat) (e : Nat) (neg : Bool) (num off tmp start : Nat) (fractionOnly hasDot : Bool)
     (dotOff : Nat) : Option Res :=
   let ep10 := sub32 (sub32 tmp start) (b2n (!fractionOnly && hasDot))
@@ -326,28 +354,8 @@ def finishReal (c : List Nat) (e : Nat) (neg : Bool) (num off tmp start : Nat) (
   | none => none
   | some (.inl r) => some r
   | some (.inr t) =>
-    let (x1, n1) : Nat × Bool :=
-      if !fractionOnly ∧ off ≠ t.off then
-        let extra :=
-          if !t.hasDot then (if t.expOff = 0 then sub32 t.off off else sub32 t.expOff off)
-          else if t.dotOff ≠ dotOff then sub32 t.dotOff off else 0
-        if !t.negExp then (add32 t.exponent extra, false)
-        else if t.exponent ≤ extra then (sub32 extra t.exponent, false)
-        else (sub32 t.exponent extra, true)
-      else (t.exponent, t.negExp)
-    let (x2, n2) : Nat × Bool :=
-      if n1 then (add32 x1 en10, true)
-      else if x1 ≥ en10 then (sub32 x1 en10, false)
-      else (sub32 en10 x1, true)
-    let sign := if neg then 0x8000000000000000 else 0
-    if num ≠ 0 then
-      if (n2 ∧ x2 > ep10 ∧ sub32 x2 ep10 > 324) ∨ (!n2 ∧ add32 x2 ep10 > 309) then
-        some ⟨.notANumber, num, t.off⟩
-      else
-        match (if n2 then powerOfNegativeTen num x2 else powerOfPositiveTen num x2) with
-        | none => none
-        | some v => some ⟨.real, v ||| sign, t.off⟩
-    else some ⟨.real, num ||| sign, t.off⟩
+    let xn := adjustExponent fractionOnly off dotOff en10 t
+    realResult neg num ep10 xn.1 xn.2 t.off
 
 /-- After the windowed scan: the 20th digit, the integer returns, else the real tail. -/
 def afterScan (c : List Nat) (e : Nat) (neg : Bool) (start : Nat) (fractionOnly : Bool) (s : Scan) : Option Res :=
